@@ -1,4 +1,4 @@
-from datetime import date, time
+from datetime import date, datetime, time
 from typing import Sequence
 
 from visions.types.date import Date
@@ -18,4 +18,8 @@ def datetime_to_date(sequence: Sequence, state: dict) -> Sequence:
 
 @Date.contains_op.register
 def date_contains(sequence: Sequence, state: dict) -> bool:
-    return all(isinstance(value, date) for value in sequence)
+    # a datetime is also a date instance, but belongs to DateTime
+    return all(
+        isinstance(value, date) and not isinstance(value, datetime)
+        for value in sequence
+    )
